@@ -84,6 +84,7 @@ func init() {
 		fmt.Fprintf(b, "/-- internal/streams/pipes.go PipeData: capacity of the two result channels (the smaller, if they differ) -/\ndef pipeChanCap : Nat := %d\n\n", capv)
 
 		// select arms
+		sidx := pkgFuncIndex14("internal/streams")
 		arms := map[string][2][]string{}
 		ast.Inspect(pd.Body, func(n ast.Node) bool {
 			sel, ok := n.(*ast.SelectStmt)
@@ -102,12 +103,12 @@ func init() {
 					}
 					return true
 				})
-				always := closeCallsIn(cc.Body)
-				var onErr []string
-				for _, st := range cc.Body {
-					if ifs, ok := st.(*ast.IfStmt); ok && strings.Contains(src(ifs.Cond), "io.EOF") && strings.Contains(src(ifs.Cond), "!=") {
-						onErr = append(onErr, closeCallsIn(ifs.Body.List)...)
-					}
+				// what the arm closes, wherever the closing code stands: in the arm, or in a function of the package the
+				// arm calls or returns the result of (x_c14_norm.go)
+				var bad []string
+				always, onErr := armCloses14(cc.Body, bind14{}, sidx, pd, 0, &bad)
+				for _, m := range bad {
+					fail("pipes.go PipeData, arm receiving from %s: %s", ch, m)
 				}
 				arms[ch] = [2][]string{always, onErr}
 			}
@@ -125,6 +126,7 @@ func init() {
 		cf := parse("internal/server/communicator.go")
 		mh := findFunc(cf, "ConnectionHandler", "muxHandler")
 		closes := false
+		tgt := openedTarget14(mh)
 		if mh == nil {
 			fail("communicator.go: muxHandler not found")
 		} else {
@@ -134,10 +136,10 @@ func init() {
 					return true
 				}
 				fn := src(c.Fun)
-				if (strings.HasSuffix(fn, "TryClose") || strings.HasSuffix(fn, "LogClose")) && len(c.Args) == 1 && src(c.Args[0]) == "upstreamConnection" {
+				if (strings.HasSuffix(fn, "TryClose") || strings.HasSuffix(fn, "LogClose")) && len(c.Args) == 1 && src(c.Args[0]) == tgt {
 					closes = true
 				}
-				if fn == "upstreamConnection.Close" {
+				if fn == tgt+".Close" {
 					closes = true
 				}
 				return true
@@ -152,42 +154,23 @@ func init() {
 		if as == nil {
 			fail("communicator.go: acceptStream not found")
 		} else {
-			ast.Inspect(as.Body, func(n ast.Node) bool {
-				ifs, ok := n.(*ast.IfStmt)
-				if !ok {
-					return true
-				}
-				cond := src(ifs.Cond)
-				if !strings.Contains(cond, "err") {
-					return true
-				}
-				endsWith := func(blk *ast.BlockStmt) string {
-					if blk == nil || len(blk.List) == 0 {
-						return "fallthrough"
+			// the decisions on AcceptStream's error, read as guarded branches whether they are written as an if/else-if
+			// chain, as separate ifs that return early, or as a switch
+			for _, g := range errBranches14(as.Body) {
+				cond := condText14(g)
+				if strings.Contains(cond, "==") && endOf14(g) == "return" {
+					for _, c := range g.conds {
+						ast.Inspect(c, func(m ast.Node) bool {
+							if be, ok := m.(*ast.BinaryExpr); ok && be.Op == token.EQL {
+								terminal = append(terminal, src(be.Y))
+							}
+							return true
+						})
 					}
-					switch l := blk.List[len(blk.List)-1].(type) {
-					case *ast.ReturnStmt:
-						return "return"
-					case *ast.BranchStmt:
-						return l.Tok.String()
-					}
-					return "fallthrough"
+				} else if cond == "err!=nil" && other == "unknown" {
+					other = endOf14(g)
 				}
-				if strings.Contains(cond, "==") && endsWith(ifs.Body) == "return" {
-					ast.Inspect(ifs.Cond, func(m ast.Node) bool {
-						if be, ok := m.(*ast.BinaryExpr); ok && be.Op == token.EQL {
-							terminal = append(terminal, src(be.Y))
-						}
-						return true
-					})
-					if els, ok := ifs.Else.(*ast.IfStmt); ok && strings.Contains(src(els.Cond), "err != nil") {
-						other = endsWith(els.Body)
-					}
-				} else if cond == "err != nil" && other == "unknown" {
-					other = endsWith(ifs.Body)
-				}
-				return true
-			})
+			}
 		}
 		fmt.Fprintf(b, "/-- acceptStream: error values that end the per-session accept loop -/\ndef acceptTerminalErrs : List String := %s\n/-- acceptStream: what the loop does on any other error from AcceptStream (\"continue\" = try again, \"return\" = stop) -/\ndef acceptOtherErr : String := %q\n", leanStrList14(terminal), other)
 	})
